@@ -113,9 +113,9 @@ Proof. split; [apply (co_base e F Hpe), Hgrco|intros a _; reflexivity]. Qed.
 Lemma id_in_all_spec fuel (FS : Prop) (QA QF : Prog.st -> Prop)
       (Q : list bool * nat * nat -> Prog.st -> Prop) s :
   cls s = [] -> sess_bounded s -> (pr_bound e F <= fuel \/ FS) ->
-  (forall s', calls s' <= calls s + pr_bound e F -> QA s') ->
-  (forall s', calls s' <= calls s + pr_bound e F -> FS -> QF s') ->
-  (forall r s', in_all_post r -> left_over s' -> calls s' <= calls s + pr_bound e F -> Q r s') ->
+  (forall s', calls s' + 1 <= calls s + pr_bound e F -> QA s') ->
+  (forall s', calls s' + 1 <= calls s + pr_bound e F -> FS -> QF s') ->
+  (forall r s', in_all_post r -> left_over s' -> calls s' + 1 <= calls s + pr_bound e F -> Q r s') ->
   wp QA (fun _ => False) QF (id_in_all oracle thr fuel e F (length g0)) Q s.
 Proof.
   intros Hc Hsb Hfuel HQA HQF HQ. unfold id_in_all. cbv zeta. rewrite (compact_length F n HF).
@@ -217,9 +217,9 @@ Qed.
 Lemma id_maximal_allowed_spec fuel (FS : Prop) (QA QF : Prog.st -> Prop)
       (Q : list nat -> Prog.st -> Prop) s :
   left_over s -> (ideal_bound <= fuel \/ FS) ->
-  (forall s', calls s' <= calls s + ideal_bound -> QA s') ->
-  (forall s', calls s' <= calls s + ideal_bound -> FS -> QF s') ->
-  (forall l s', idl F l -> NoDup l -> calls s' <= calls s + ideal_bound -> Q l s') ->
+  (forall s', calls s' + 1 <= calls s + ideal_bound -> QA s') ->
+  (forall s', calls s' + 1 <= calls s + ideal_bound -> FS -> QF s') ->
+  (forall l s', idl F l -> NoDup l -> calls s' + 1 <= calls s + ideal_bound -> Q l s') ->
   wp QA (fun _ => False) QF (id_maximal_allowed oracle fuel e F in_all) Q s.
 Proof.
   intros (C & selv & Bs & HC & (Hfresh & Hselpos & Hargs) & Hcls & Hsb) Hfuel HQA HQF HQ.
@@ -269,12 +269,13 @@ Qed.
 End Core.
 
 (* ---------- T4: the ideal extension of the component ---------- *)
-Definition id_bound : nat := pr_bound e F + (length (all_base (enc_base e) F) + 2).
+(* = 2 |base| + |PR| + 2, the bound of C18 for the ideal semantics *)
+Definition id_bound : nat := pr_bound e F + length (all_base (enc_base e) F) + 1.
 
 Lemma id_single_NoDup in_all : NoDup (id_single in_all).
 Proof. unfold id_single. apply NoDup_filter, seq_NoDup. Qed.
 
-(* completed runs return the ideal extension; no run panics; every run makes at most [id_bound]
+(* completed runs return the ideal extension; no run panics; every run makes fewer than [id_bound]
    SAT calls; fuel runs out only when fewer than [id_bound] units were given *)
 Theorem id_ext_for_cc_full fuel s :
   outcome_ok (id_ext_for_cc oracle thr fuel e F s) (calls s) id_bound fuel
@@ -282,22 +283,22 @@ Theorem id_ext_for_cc_full fuel s :
 Proof.
   apply wp_outcome. unfold id_ext_for_cc. cbv zeta. rewrite wp_bind, wp_new_solver, wp_bind.
   change (calls s) with (calls (st_new s)).
-  apply (id_in_all_spec fuel (fuel < id_bound)); [apply cls_new|apply sb_new|unfold id_bound; lia| | |].
-  - intros s' H. unfold QAb, id_bound. lia.
-  - intros s' H HFS. unfold QFb, id_bound. split; [lia|exact HFS].
+  apply (id_in_all_spec fuel (fuel < id_bound)); [apply cls_new|apply sb_new|unfold id_bound, pr_bound in *; lia| | |].
+  - intros s' H. unfold QAb, id_bound, pr_bound in *. lia.
+  - intros s' H HFS. unfold QFb, id_bound, pr_bound in *. split; [lia|exact HFS].
   - intros [[in_all n_in_all] n_pref] s' (Hlen & Hcore & Hcnt & Hone) Hleft Hcl. cbn [fst snd] in *.
     destruct (Nat.eqb n_in_all (length g0)) eqn:E1.
-    + apply Nat.eqb_eq in E1. rewrite wp_ret. split; [|unfold id_bound; lia].
+    + apply Nat.eqb_eq in E1. rewrite wp_ret. split; [|unfold id_bound, pr_bound in *; lia].
       split; [|exact Hgrnd]. apply (ideal_is_grounded in_all Hcore). congruence.
     + apply Nat.eqb_neq in E1. destruct (Nat.eqb n_pref 1) eqn:E2.
       * apply Nat.eqb_eq in E2. rewrite wp_ret. destruct (Hone E2 E1) as [Q [HQ HE]].
-        split; [|unfold id_bound; lia]. split; [|apply id_single_NoDup].
+        split; [|unfold id_bound, pr_bound in *; lia]. split; [|apply id_single_NoDup].
         exact (ideal_is_single in_all Hcore Q HQ HE).
       * apply (id_maximal_allowed_spec in_all Hlen Hcore fuel (fuel < id_bound)); [exact Hleft| | | |].
-        -- unfold id_bound, ideal_bound. lia.
-        -- intros s2 H. unfold QAb, id_bound, ideal_bound in *. lia.
-        -- intros s2 H HFS. unfold QFb, id_bound, ideal_bound in *. split; [lia|exact HFS].
-        -- intros l s2 Hl Hnd Hc2. split; [now split|]. unfold id_bound, ideal_bound in *. lia.
+        -- unfold id_bound, ideal_bound, pr_bound. lia.
+        -- intros s2 H. unfold QAb, id_bound, ideal_bound, pr_bound in *. lia.
+        -- intros s2 H HFS. unfold QFb, id_bound, ideal_bound, pr_bound in *. split; [lia|exact HFS].
+        -- intros l s2 Hl Hnd Hc2. split; [now split|]. unfold id_bound, ideal_bound, pr_bound in *. lia.
 Qed.
 
 Corollary id_ext_for_cc_correct fuel :
@@ -332,32 +333,32 @@ Theorem id_cred_for_cc_full fuel la s :
 Proof.
   apply wp_outcome. unfold id_cred_for_cc. cbv zeta. rewrite wp_bind, wp_new_solver, wp_bind.
   change (calls s) with (calls (st_new s)).
-  apply (id_in_all_spec fuel (fuel < id_bound)); [apply cls_new|apply sb_new|unfold id_bound; lia| | |].
-  - intros s' H. unfold QAb, id_bound. lia.
-  - intros s' H HFS. unfold QFb, id_bound. split; [lia|exact HFS].
+  apply (id_in_all_spec fuel (fuel < id_bound)); [apply cls_new|apply sb_new|unfold id_bound, pr_bound in *; lia| | |].
+  - intros s' H. unfold QAb, id_bound, pr_bound in *. lia.
+  - intros s' H HFS. unfold QFb, id_bound, pr_bound in *. split; [lia|exact HFS].
   - intros [[in_all n_in_all] n_pref] s' (Hlen & Hcore & Hcnt & Hone) Hleft Hcl. cbn [fst snd] in *.
     destruct (forallb (fun a => negb (nth_bool in_all a)) la) eqn:Enone.
     + (* no listed argument is in every preferred extension *)
-      rewrite wp_ret. split; [|unfold id_bound; lia].
+      rewrite wp_ret. split; [|unfold id_bound, pr_bound in *; lia].
       unfold id_cred_answer. cbn [fst]. split; [|exact I]. split; [discriminate|].
       intros [S [HS [a [Ha HaS]]]]. exfalso.
       pose proof (proj1 (idl_char F _ S Hwf Hcore) HS) as (_ & HSA & _).
       apply HSA in HaS. apply (in_id_single in_all a Hlen) in HaS. destruct HaS as [_ Ht].
       rewrite forallb_forall in Enone. specialize (Enone a Ha). rewrite Ht in Enone. discriminate.
     + destruct (Nat.eqb n_in_all (length g0)) eqn:E1.
-      * apply Nat.eqb_eq in E1. rewrite wp_ret. split; [|unfold id_bound; lia].
+      * apply Nat.eqb_eq in E1. rewrite wp_ret. split; [|unfold id_bound, pr_bound in *; lia].
         apply id_result_answer; [|exact Hgrnd]. apply (ideal_is_grounded in_all Hcore). congruence.
       * apply Nat.eqb_neq in E1. destruct (Nat.eqb n_pref 1) eqn:E2.
         -- apply Nat.eqb_eq in E2. rewrite wp_ret. destruct (Hone E2 E1) as [Q [HQ HE]].
-           split; [|unfold id_bound; lia].
+           split; [|unfold id_bound, pr_bound in *; lia].
            apply id_result_answer; [|apply id_single_NoDup]. exact (ideal_is_single in_all Hcore Q HQ HE).
         -- rewrite wp_bind.
            apply (id_maximal_allowed_spec in_all Hlen Hcore fuel (fuel < id_bound)); [exact Hleft| | | |].
-           ++ unfold id_bound, ideal_bound. lia.
-           ++ intros s2 H. unfold QAb, id_bound, ideal_bound in *. lia.
-           ++ intros s2 H HFS. unfold QFb, id_bound, ideal_bound in *. split; [lia|exact HFS].
+           ++ unfold id_bound, ideal_bound, pr_bound. lia.
+           ++ intros s2 H. unfold QAb, id_bound, ideal_bound, pr_bound in *. lia.
+           ++ intros s2 H HFS. unfold QFb, id_bound, ideal_bound, pr_bound in *. split; [lia|exact HFS].
            ++ intros l s2 Hl Hnd Hc2. rewrite wp_ret. split; [now apply id_result_answer|].
-              unfold id_bound, ideal_bound in *. lia.
+              unfold id_bound, ideal_bound, pr_bound in *. lia.
 Qed.
 
 Corollary id_cred_for_cc_correct fuel la :
@@ -365,6 +366,26 @@ Corollary id_cred_for_cc_correct fuel la :
 Proof.
   intros s. pose proof (outcome_done _ _ _ _ _ _ (id_cred_for_cc_full fuel la s)) as H.
   destruct (id_cred_for_cc oracle thr fuel e F la s); tauto.
+Qed.
+
+(* C18 for the ideal semantics, one component: SAT calls and sufficient fuel *)
+Corollary id_ext_for_cc_calls fuel s :
+  calls (final_st (id_ext_for_cc oracle thr fuel e F s)) + 1 <= calls s + id_bound.
+Proof. exact (outcome_calls _ _ _ _ _ _ (id_ext_for_cc_full fuel s)). Qed.
+Corollary id_ext_for_cc_fuel fuel s : id_bound <= fuel ->
+  match id_ext_for_cc oracle thr fuel e F s with OutOfFuel _ | Panic _ => False | _ => True end.
+Proof.
+  intros Hf. pose proof (id_ext_for_cc_full fuel s) as H.
+  destruct (id_ext_for_cc oracle thr fuel e F s); cbn in H; try tauto. lia.
+Qed.
+Corollary id_cred_for_cc_calls fuel la s :
+  calls (final_st (id_cred_for_cc oracle thr fuel e F la s)) + 1 <= calls s + id_bound.
+Proof. exact (outcome_calls _ _ _ _ _ _ (id_cred_for_cc_full fuel la s)). Qed.
+Corollary id_cred_for_cc_fuel fuel la s : id_bound <= fuel ->
+  match id_cred_for_cc oracle thr fuel e F la s with OutOfFuel _ | Panic _ => False | _ => True end.
+Proof.
+  intros Hf. pose proof (id_cred_for_cc_full fuel la s) as H.
+  destruct (id_cred_for_cc oracle thr fuel e F la s); cbn in H; try tauto. lia.
 Qed.
 
 End Ideal.
@@ -385,3 +406,7 @@ Print Assumptions id_ext_for_cc_full.
 Print Assumptions id_cred_for_cc_full.
 Print Assumptions id_ext_for_cc_correct.
 Print Assumptions id_cred_for_cc_correct.
+Print Assumptions id_ext_for_cc_calls.
+Print Assumptions id_ext_for_cc_fuel.
+Print Assumptions id_cred_for_cc_calls.
+Print Assumptions id_cred_for_cc_fuel.
